@@ -108,6 +108,8 @@ def write_string(val: str) -> bytes:
         dgram = val.encode('utf-8')  # Default, but better be explicit.
     except (UnicodeEncodeError, AttributeError) as e:
         raise OscTypeBuildError('Incorrect string, could not encode') from e
+    if b'\x00' in dgram:
+        raise OscTypeBuildError('OSC strings cannot contain null characters')
     diff = _STRING_DGRAM_PAD - (len(dgram) % _STRING_DGRAM_PAD)
     dgram += (b'\x00' * diff)
     return dgram
